@@ -43,7 +43,7 @@ class C15(Prop):
         probes = [["probe", k] for k in SMALL_PROBES] + [["probe_int", i] for i in (-3, -1, 0, 1, 2)] + \
                  [["probe_slice", None, None, -1], ["probe_slice", 1, None, None]] + \
                  [["get", k, False] for k in SMALL_PROBES] + [["del_absent", k] for k in SMALL_PROBES]
-        for L in (1, 2):
+        for L in ((1, 2, 3) if tier == "thorough" else (1, 2)):
             for seq in itertools.product(builds, repeat=L):
                 for t in tails:
                     for tr in (False, True):
